@@ -278,8 +278,14 @@ pub fn emit(roots: &[Id], th: Theory) -> Emitted {
                     }
                     format!("({f} n{a})")
                 }
+                Interp::Template(_) | Interp::Ac(_) => unreachable!(),
             },
             Node::Bin(k, a, b) => match table::interp_bin(k, th) {
+                // further genuinely AC functions: a (+) b (+) c, a (*) b (*) c, a xor b xor c with a constant c
+                Interp::Ac(n) => {
+                    let base = ["bvadd", "bvmul", "bvxor"][n % 3];
+                    format!("({base} ({base} n{a} n{b}) #x{:04x})", 2 * (n / 3) + 1)
+                }
                 Interp::Builtin(f) => {
                     if th == Theory::Nra && f == "/" {
                         domain.push(format!("(not (= n{b} 0.0))"));
@@ -292,6 +298,18 @@ pub fn emit(roots: &[Id], th: Theory) -> Emitted {
                         crate::nra::binary_side(&f, a, b, i, &mut domain, &mut lemmas, &mut decl_ufs);
                     }
                     format!("({f} n{a} n{b})")
+                }
+                Interp::Template(t) => {
+                    if t.contains("val_none") {
+                        decl_consts.insert("val_none".into(), ());
+                        // ordinary values are never the none value
+                        if t.starts_with("(ite (not") {
+                            domain.push(format!("(distinct n{a} val_none)"));
+                        } else {
+                            domain.push(format!("(distinct n{b} val_none)"));
+                        }
+                    }
+                    t.replace("{a}", &format!("n{a}")).replace("{b}", &format!("n{b}"))
                 }
             },
         };
